@@ -25,7 +25,7 @@ TECHNIQUE = ('Hypothesis rule-based state machine over histories of doctest runs
              'collection, whole-module runs, environment phase flips); oracle = history-independent expectation table '
              '(verdict, exception class, recorded stdout, report style) + invariants on module globals, default directive '
              'state and the shared config dict after every step')
-LEVEL_TEXT = ("A state machine builds a module with a global G, a function reading it and a pool of 6-14 doctests drawn from 18 "
+LEVEL_TEXT = ("A state machine builds a module with a global G, a function reading it and a pool of 6-14 doctests drawn from 22 "
               "templates (binds a name others read; reads a name only another doctest binds; checks that its own name is unset "
               "and then sets it; rebinds the module global; reads the module global directly and through module code; ends "
               "with SKIP / an unmet REQUIRES / REPORT_NDIFF / IGNORE_WANT / -ELLIPSIS switched on; a multi-line wrong want whose "
@@ -52,8 +52,9 @@ ASSUMPTIONS = [
 
 TEMPLATES = ['define', 'read_other', 'unset_then_set', 'rebind_G', 'read_G', 'leave_skip', 'leave_requires', 'leave_ndiff',
              'leave_ignore_want', 'leave_noellipsis', 'wrong_want', 'replace_stdout', 'filter_error', 'warn', 'phase_unmatched',
-             'fails_late', 'needs_ellipsis', 'filter_error_then_fail', 'global_exec_mutate']
-LEAVES_ON = {'filter_error_then_fail', 'global_exec_mutate', 'leave_skip', 'leave_requires', 'leave_ndiff', 'leave_ignore_want', 'leave_noellipsis', 'filter_error', 'replace_stdout',
+             'fails_late', 'needs_ellipsis', 'filter_error_then_fail', 'global_exec_mutate', 'quoted_ellipsis_strict',
+             'quoted_ellipsis_plain', 'all_skipped', 'half_skipped']
+LEAVES_ON = {'quoted_ellipsis_strict', 'all_skipped', 'half_skipped', 'filter_error_then_fail', 'global_exec_mutate', 'leave_skip', 'leave_requires', 'leave_ndiff', 'leave_ignore_want', 'leave_noellipsis', 'filter_error', 'replace_stdout',
              'define', 'rebind_G', 'phase_unmatched', 'fails_late'}
 PHASE_VAR = 'VP_PHASE'
 
@@ -95,6 +96,15 @@ def template_lines(t, k):
         return [">>> print('fresh' if 'Z' not in globals() else 'stale')", 'fresh', '>>> Z = 1', ">>> raise KeyError('late')"]
     if t == 'needs_ellipsis':
         return [">>> print('head middle tail')", 'head ... tail']
+    if t == 'quoted_ellipsis_strict':
+        # the same got / want texts as 'quoted_ellipsis_plain', judged with ELLIPSIS switched off
+        return ['>>> # xdoctest: -ELLIPSIS', ">>> 'hello world'", 'hello...']
+    if t == 'quoted_ellipsis_plain':
+        return [">>> 'hello world'", 'hello...']
+    if t == 'all_skipped':
+        return ['>>> # xdoctest: +SKIP', ">>> print('never {}')".format(k), 'wrong']
+    if t == 'half_skipped':
+        return [">>> print('h{}')".format(k), 'h{}'.format(k), ">>> print('never')  # xdoctest: +SKIP", 'wrong', ">>> print('again')", 'again']
     if t == 'filter_error_then_fail':
         return ['>>> import warnings', ">>> warnings.simplefilter('error')", ">>> raise LookupError('after changing the filters')"]
     if t == 'global_exec_mutate':
@@ -139,6 +149,14 @@ def expected(t, k, phase):
         return 'failed', 'KeyError', 'fresh\n'
     if t == 'needs_ellipsis':
         return 'passed', None, 'head middle tail\n'
+    if t == 'quoted_ellipsis_strict':
+        return 'failed', 'GotWantException', ''
+    if t == 'quoted_ellipsis_plain':
+        return 'passed', None, ''
+    if t == 'all_skipped':
+        return 'skipped', None, ''
+    if t == 'half_skipped':
+        return 'passed', None, 'h{}\nagain\n'.format(k)
     if t == 'filter_error_then_fail':
         return 'failed', 'LookupError', ''
     if t == 'global_exec_mutate':
